@@ -613,6 +613,7 @@ package engine
 //@   ensures[handled-len] result == nil ==> 1 <= len(*s) && len(*s) <= old(len(*s))
 //@   ensures[handled-top] result == nil ==> (*s)[len(*s) - 1] != nil
 //@   ensures[handled-prefix] result == nil ==> forall j int :: 0 <= j && j < len(*s) - 1 ==> (*s)[j] == old((*s)[j])
+//@   at-call append requires[the-recovery-takes-the-place-of-the-frame-whose-handler-accepted-everything-below-stays] a0 == *s && len(a1) == 1
 
 //@ func cut
 //@   property C03
